@@ -275,6 +275,7 @@ impl Parser {
                     }
 
                     let mut ident = property.to_owned();
+                    ident.mark_imported();
 
                     match ident.ty().unwrap().as_ref() {
                         TypeLayout::Class(class_type) => {
